@@ -24,13 +24,17 @@ def isDigit (c : Char) : Bool := '0' ≤ c && c ≤ '9'
 def digitVal (c : Char) : Nat := c.toNat - '0'.toNat
 
 /-- number of decimal digits beyond which CPython's `int(str)` raises `ValueError`
-    (`sys.get_int_max_str_digits()`; pinned by `Generated.Constants`) -/
-def maxStrDigits : Nat := 4300
+    (`sys.get_int_max_str_digits()`, pinned to the generated constant by `Props.C04.grammar_pin`); 0 = no limit, which is
+    what lib/__init__.py arranges since `fix:` 871d4d7 -/
+def maxStrDigits : Nat := 0
+
+/-- does `int()` refuse a numeral of `len` digits? -/
+def tooLong (len : Nat) : Bool := maxStrDigits != 0 && decide (len > maxStrDigits)
 
 inductive LexResult where
   | ok (ts : List Tok)
   | syntaxError                -- rply LexingError
-  | valueError                 -- int() on an over-long numeral (a crash of the real tool: C01)
+  | valueError                 -- int() on an over-long numeral (unreachable while `maxStrDigits = 0`)
   deriving DecidableEq, Repr
 
 def LexResult.cons (t : Tok) : LexResult → LexResult
@@ -45,7 +49,7 @@ def flush (p : Pending) (r : LexResult) : LexResult :=
   | none => r
   | some (v, len) =>
     match r with
-    | .ok ts => if len > maxStrDigits then .valueError else .ok (.int v :: ts)
+    | .ok ts => if tooLong len then .valueError else .ok (.int v :: ts)
     | .syntaxError => .syntaxError
     | .valueError => .valueError
 
